@@ -582,7 +582,9 @@ pub fn derive_edit(rng: &mut Rng, prev: &str) -> String {
     }
     let n_edits = 1 + rng.below(2);
     for _ in 0..n_edits {
-        let i = rng.usize_below(lines.len());
+        // a third of the edits touch a declaration line (%start, %scanner, %skip, %on ...)
+        let directive: Vec<usize> = (0..lines.len()).filter(|i| lines[*i].contains('%')).collect();
+        let i = if !directive.is_empty() && rng.chance(1, 3) { *rng.pick(&directive) } else { rng.usize_below(lines.len()) };
         match rng.below(12) {
             9 => {
                 // whitespace-only edit at the very beginning of the document
